@@ -30,6 +30,11 @@ pub struct Hist {
     /// analyzer forgets a connection whose client has closed)
     #[serde(default)]
     pub fin: u8,
+    /// TCP keep-alive probes on the idle connection before any data: a segment one byte BEFORE the first byte of the
+    /// stream (sequence number = ISN) carrying one garbage byte (RFC 1122 4.2.3.6); bit 0 = from the client, bit 1 = from
+    /// the server, bit 2 = the probes arrive twice
+    #[serde(default)]
+    pub probe: u8,
 }
 
 pub fn streams() -> Vec<(&'static str, Vec<u8>, Vec<u8>)> {
@@ -155,6 +160,14 @@ pub fn check(r: &mut Report, ss: &[(&'static str, Vec<u8>, Vec<u8>)], refs: &[(O
             _ => (a.feed(&syn), a.feed(&synack)),
         };
         let mut out = vec![summary(&first), summary(&second)];
+        for _ in 0..(if h.probe & 4 != 0 { 2 } else { 1 }) {
+            if h.probe & 1 != 0 {
+                let _ = a.feed(&pkt::build(&Spec { src: 1, sport: 40000, dst: 2, dport: 80, flags: ACK, seq: h.client_isn, ack: 1, payload: vec![0], ..Spec::default() }));
+            }
+            if h.probe & 2 != 0 {
+                let _ = a.feed(&pkt::build(&Spec { src: 2, sport: 80, dst: 1, dport: 40000, flags: ACK, seq: h.server_isn, ack: 1, payload: vec![b'G'], ..Spec::default() }));
+            }
+        }
         for (i, f) in frames.iter().enumerate() {
             out.push(summary(&a.feed(f)));
             let sg = h.segs[i];
@@ -294,7 +307,7 @@ pub fn histories(ss: &[(&'static str, Vec<u8>, Vec<u8>)], thorough: bool) -> Vec
                             } else {
                                 segs.insert(0, whole);
                             }
-                            v.push(Hist { stream: si, client_isn: if client { isn } else { 7000 }, server_isn: if client { 9000 } else { isn }, segs, handshake: 0, fin: 0 });
+                            v.push(Hist { stream: si, client_isn: if client { isn } else { 7000 }, server_isn: if client { 9000 } else { isn }, segs, handshake: 0, fin: 0, probe: 0 });
                         }
                     }
                 }
@@ -310,7 +323,7 @@ pub fn histories(ss: &[(&'static str, Vec<u8>, Vec<u8>)], thorough: bool) -> Vec
                     let all = [a[0], a[1], b[0], b[1]];
                     let segs: Vec<(bool, usize, usize)> = order.iter().map(|&i| all[i]).collect();
                     for (ci, sidx) in [(u32::MAX - 20, u32::MAX - 30), (0x1000, 0x2000)] {
-                        v.push(Hist { stream: si, client_isn: ci, server_isn: sidx, segs: segs.clone(), handshake: 0, fin: 0 });
+                        v.push(Hist { stream: si, client_isn: ci, server_isn: sidx, segs: segs.clone(), handshake: 0, fin: 0, probe: 0 });
                     }
                 }
             }
@@ -325,8 +338,21 @@ pub fn histories(ss: &[(&'static str, Vec<u8>, Vec<u8>)], thorough: bool) -> Vec
                         for isn in [u32::MAX - (c2 as u32), 5] {
                             let mut segs: Vec<(bool, usize, usize)> = perm.iter().map(|&i| (true, part[i].0, part[i].1)).collect();
                             segs.push((false, 0, resp.len()));
-                            v.push(Hist { stream: si, client_isn: isn, server_isn: 1, segs, handshake: 0, fin: 0 });
+                            v.push(Hist { stream: si, client_isn: isn, server_isn: 1, segs, handshake: 0, fin: 0, probe: 0 });
                         }
+                    }
+                }
+            }
+        }
+        // keep-alive probes before the data
+        for probe in [1u8, 2, 3, 7] {
+            for (ci, sidx) in [(0x1000u32, 0x2000u32), (u32::MAX - 20, u32::MAX - 30), (0, 0), (u32::MAX, u32::MAX)] {
+                v.push(Hist { stream: si, client_isn: ci, server_isn: sidx, segs: vec![(true, 0, req.len()), (false, 0, resp.len())], handshake: 0, fin: 0, probe });
+                for c1 in (1..req.len()).step_by(17) {
+                    for c2 in (1..resp.len()).step_by(17) {
+                        let (a, b, c, d) = ((true, 0, c1), (true, c1, req.len() - c1), (false, 0, c2), (false, c2, resp.len() - c2));
+                        v.push(Hist { stream: si, client_isn: ci, server_isn: sidx, segs: vec![a, b, c, d], handshake: 0, fin: 0, probe });
+                        v.push(Hist { stream: si, client_isn: ci, server_isn: sidx, segs: vec![b, a, d, c], handshake: 0, fin: 0, probe });
                     }
                 }
             }
@@ -334,13 +360,13 @@ pub fn histories(ss: &[(&'static str, Vec<u8>, Vec<u8>)], thorough: bool) -> Vec
         // teardown flags inside the exchange
         for fin in 1..=3u8 {
             for (ci, sidx) in [(0x1000u32, 0x2000u32), (u32::MAX - 20, u32::MAX - 30)] {
-                v.push(Hist { stream: si, client_isn: ci, server_isn: sidx, segs: vec![(true, 0, req.len()), (false, 0, resp.len())], handshake: 0, fin });
+                v.push(Hist { stream: si, client_isn: ci, server_isn: sidx, segs: vec![(true, 0, req.len()), (false, 0, resp.len())], handshake: 0, fin, probe: 0 });
                 for c1 in (1..req.len()).step_by(13) {
                     for c2 in (1..resp.len()).step_by(13) {
                         let (a, b, c, d) = ((true, 0, c1), (true, c1, req.len() - c1), (false, 0, c2), (false, c2, resp.len() - c2));
-                        v.push(Hist { stream: si, client_isn: ci, server_isn: sidx, segs: vec![a, b, c, d], handshake: 0, fin });
+                        v.push(Hist { stream: si, client_isn: ci, server_isn: sidx, segs: vec![a, b, c, d], handshake: 0, fin, probe: 0 });
                         // the server's pieces swapped (the FIN-carrying one first); the client's stay in order
-                        v.push(Hist { stream: si, client_isn: ci, server_isn: sidx, segs: vec![a, b, d, c], handshake: 0, fin });
+                        v.push(Hist { stream: si, client_isn: ci, server_isn: sidx, segs: vec![a, b, d, c], handshake: 0, fin, probe: 0 });
                     }
                 }
             }
@@ -349,11 +375,11 @@ pub fn histories(ss: &[(&'static str, Vec<u8>, Vec<u8>)], thorough: bool) -> Vec
         // directions whole and in two pieces (cuts on a stride), in order and with the response first
         for hs in 1..=4u8 {
             for (ci, sidx) in [(0x1000u32, 0x2000u32), (u32::MAX - 20, u32::MAX - 30)] {
-                v.push(Hist { stream: si, client_isn: ci, server_isn: sidx, segs: vec![(true, 0, req.len()), (false, 0, resp.len())], handshake: hs, fin: 0 });
-                v.push(Hist { stream: si, client_isn: ci, server_isn: sidx, segs: vec![(false, 0, resp.len()), (true, 0, req.len())], handshake: hs, fin: 0 });
+                v.push(Hist { stream: si, client_isn: ci, server_isn: sidx, segs: vec![(true, 0, req.len()), (false, 0, resp.len())], handshake: hs, fin: 0, probe: 0 });
+                v.push(Hist { stream: si, client_isn: ci, server_isn: sidx, segs: vec![(false, 0, resp.len()), (true, 0, req.len())], handshake: hs, fin: 0, probe: 0 });
                 for c1 in (1..req.len()).step_by(13) {
                     for c2 in (1..resp.len()).step_by(13) {
-                        v.push(Hist { stream: si, client_isn: ci, server_isn: sidx, segs: vec![(true, 0, c1), (true, c1, req.len() - c1), (false, 0, c2), (false, c2, resp.len() - c2)], handshake: hs, fin: 0 });
+                        v.push(Hist { stream: si, client_isn: ci, server_isn: sidx, segs: vec![(true, 0, c1), (true, c1, req.len() - c1), (false, 0, c2), (false, c2, resp.len() - c2)], handshake: hs, fin: 0, probe: 0 });
                     }
                 }
             }
@@ -367,7 +393,7 @@ pub fn histories(ss: &[(&'static str, Vec<u8>, Vec<u8>)], thorough: bool) -> Vec
 fn slow_connections(r: &mut Report, ss: &[(&'static str, Vec<u8>, Vec<u8>)], refs: &[(Option<String>, Option<String>)]) {
     let mut runs: Vec<(usize, HttpSeq, Vec<Vec<u8>>, Vec<(Option<String>, Option<String>)>)> = vec![];
     for (si, (_n, req, resp)) in ss.iter().enumerate() {
-        let h = Hist { stream: si, client_isn: 0x7000, server_isn: 0x9000, segs: vec![(true, 0, req.len() / 2), (true, req.len() / 2, req.len() - req.len() / 2), (false, 0, resp.len() / 2), (false, resp.len() / 2, resp.len() - resp.len() / 2)], handshake: 0, fin: 0 };
+        let h = Hist { stream: si, client_isn: 0x7000, server_isn: 0x9000, segs: vec![(true, 0, req.len() / 2), (true, req.len() / 2, req.len() - req.len() / 2), (false, 0, resp.len() / 2), (false, resp.len() / 2, resp.len() - resp.len() / 2)], handshake: 0, fin: 0, probe: 0 };
         let mut frames = vec![pkt::build(&Spec { src: 1, sport: 40000, dst: 2, dport: 80, flags: SYN, seq: h.client_isn, ..Spec::default() }), pkt::build(&Spec { src: 2, sport: 80, dst: 1, dport: 40000, flags: SYN | ACK, seq: h.server_isn, ack: h.client_isn.wrapping_add(1), ..Spec::default() })];
         frames.extend(h.segs.iter().map(|sg| frame_for(&h, req, resp, sg)));
         runs.push((si, HttpSeq::new(None, 8), frames, vec![]));
@@ -415,7 +441,7 @@ pub fn run(thorough: bool) -> Outcome {
             if hs_ < resp.len() {
                 segs.push((false, hs_, resp.len() - hs_));
             }
-            let h = Hist { stream: si, client_isn: 1000, server_isn: 5000, segs, handshake: 0, fin: 0 };
+            let h = Hist { stream: si, client_isn: 1000, server_isn: 5000, segs, handshake: 0, fin: 0, probe: 0 };
             let syn = pkt::build(&Spec { src: 1, sport: 40000, dst: 2, dport: 80, flags: SYN, seq: 1000, ..Spec::default() });
             let mut a = HttpSeq::new(None, 8);
             a.feed(&syn);
@@ -445,7 +471,7 @@ pub fn run(thorough: bool) -> Outcome {
     slow_connections(&mut pre, &ss, &refs);
     Outcome {
         report: pre.merge(rep),
-        rule: "HTTP/1 (CRLF heads; bare-LF heads whose bodies contain CRLF blank lines; CRLF heads whose bodies contain LF blank lines; bodies that are not UTF-8) and HTTP/2 (single HEADERS frame; HEADERS + CONTINUATION frames) exchanges after SYN/SYN+ACK, reference = each direction cut exactly behind its head: every 1-, 2- and 3-partition (3-partitions on a stride in quick) of each direction x 9 initial sequence numbers (0, 1, 2^31, 2^31-10, 2^32-1, 2^32-2, 2^32-len, 2^32-len/2, 0x12345678) x every arrival permutation; both directions in two pieces each in all 24 interleavings (with and without wrap); four request pieces in all 24 orders; the handshake in 4 further shapes (SYN+ACK before SYN, retransmitted SYN+ACK, a stale SYN or SYN+ACK of the reversed orientation first) x whole and two-piece directions; teardown inside the exchange (FIN on the server's last segment, an empty client FIN between request and response, FIN on the client's last segment) x whole and two-piece directions; every stream once with 150 ms of real time between its packets; distinct = distinct per-packet report patterns".into(),
+        rule: "HTTP/1 (CRLF heads; bare-LF heads whose bodies contain CRLF blank lines; CRLF heads whose bodies contain LF blank lines; bodies that are not UTF-8) and HTTP/2 (single HEADERS frame; HEADERS + CONTINUATION frames) exchanges after SYN/SYN+ACK, reference = each direction cut exactly behind its head: every 1-, 2- and 3-partition (3-partitions on a stride in quick) of each direction x 9 initial sequence numbers (0, 1, 2^31, 2^31-10, 2^32-1, 2^32-2, 2^32-len, 2^32-len/2, 0x12345678) x every arrival permutation; both directions in two pieces each in all 24 interleavings (with and without wrap); four request pieces in all 24 orders; the handshake in 4 further shapes (SYN+ACK before SYN, retransmitted SYN+ACK, a stale SYN or SYN+ACK of the reversed orientation first) x whole and two-piece directions; teardown inside the exchange (FIN on the server's last segment, an empty client FIN between request and response, FIN on the client's last segment) x whole and two-piece directions; keep-alive probes (one garbage byte at sequence number ISN) from either or both sides before the data, once or twice; every stream once with 150 ms of real time between its packets; distinct = distinct per-packet report patterns".into(),
         exhaustive: true,
         bounds: json!({"histories": hs.len(), "streams": ss.iter().map(|s| (s.0, s.1.len(), s.2.len())).collect::<Vec<_>>()}),
     }
@@ -469,7 +495,7 @@ fn run_refs(ss: &[(&'static str, Vec<u8>, Vec<u8>)]) -> Vec<(Option<String>, Opt
     ss.iter()
         .enumerate()
         .map(|(si, (_n, req, resp))| {
-            let h = Hist { stream: si, client_isn: 1000, server_isn: 5000, segs: vec![(true, 0, req.len()), (false, 0, resp.len())], handshake: 0, fin: 0 };
+            let h = Hist { stream: si, client_isn: 1000, server_isn: 5000, segs: vec![(true, 0, req.len()), (false, 0, resp.len())], handshake: 0, fin: 0, probe: 0 };
             let syn = pkt::build(&Spec { src: 1, sport: 40000, dst: 2, dport: 80, flags: SYN, seq: 1000, ..Spec::default() });
             let mut a = HttpSeq::new(None, 8);
             a.feed(&syn);
